@@ -74,7 +74,6 @@ unsigned verif_sleep(unsigned s) { vnow += s; return 0; }
 int verif_fprintf(FILE *f, const char *fmt, ...) { (void) f; (void) fmt; return 0; }
 void verif_warnx(const char *fmt, ...) { (void) fmt; }
 ssize_t verif_recvmsg(int fd, struct msghdr *msg, int flags) { (void) fd; (void) msg; (void) flags; return -1; }
-ssize_t verif_recv(int fd, void *buf, size_t len, int flags) { (void) fd; (void) buf; (void) len; (void) flags; return -1; }
 
 int verif_compress2(Bytef *dest, uLongf *destLen, const Bytef *source, uLong sourceLen, int level)
 {
@@ -218,6 +217,11 @@ ssize_t verif_recvfrom(int fd, void *buf, size_t len, int flags, struct sockaddr
 		*fromlen = nameserv_len;
 	}
 	return (ssize_t) n;
+}
+
+ssize_t verif_recv(int fd, void *buf, size_t len, int flags)
+{
+	return verif_recvfrom(fd, buf, len, flags, NULL, NULL);
 }
 
 ssize_t verif_read(int fd, void *buf, size_t len)
